@@ -161,5 +161,103 @@ theorem page_props (s s' : PStore) (p : Int) (e : Bool) (k? : Option Nat) (h : s
           refine ⟨by omega, materialize_getD_size _ _ (by omega), by omega⟩
         · cases h
 
+/-! ### `compact`: the inner loops -/
+
+/-- `s.pages[k] = page` on the generated page table -/
+theorem set_pagesL_nat (s : PStore) (k : Nat) (a : Array Rat) :
+    GoSem.set (pagesL s) (k : Int) a.toList
+      = if k < s.pages.size then some (pagesL { s with pages := s.pages.setIfInBounds k a }) else none := by
+  unfold GoSem.set pagesL
+  by_cases h : k < s.pages.size
+  · rw [if_neg (by simp; omega), if_pos h]
+    simp [List.map_set]
+  · rw [if_pos (by simp; omega), if_neg h]
+
+@[simp] theorem pagesL_setBuf (s : PStore) (B : List Int) : pagesL (setBuf s B) = pagesL s := rfl
+
+/-- the model step of loop2 -/
+def addLine (k : Nat) (acc : PStore) (i : Int) : Option PStore := addAtPage acc k (acc.lineIndex i) 1
+
+/-- loop2 of `compact`: the entries of one page group go to the lines of their page; `newPage` aliases
+    `s.pages[k]` -/
+theorem compact_loop2_eq (cap : Int) (k : Nat) (B : List Int) : ∀ (grp : List Int) (s : PStore),
+    BufferedPaginatedStore.compact.loop2 (k : Int) grp (s.pages.getD k #[]).toList (toGen (setBuf s B) cap)
+      = match grp.foldlM (addLine k) s with
+        | none => .panic
+        | some s2 => .done ((s2.pages.getD k #[]).toList, toGen (setBuf s2 B) cap) := by
+  intro grp
+  induction grp with
+  | nil => intro s; rfl
+  | cons i grp ih =>
+    intro s
+    unfold BufferedPaginatedStore.compact.loop2
+    rw [gen_lineIndex, setBuf_lineIndex, addAt_toList_L]
+    simp only [List.foldlM_cons, addLine, PStore.addAtPage]
+    by_cases h1 : s.lineIndex i < (s.pages.getD k #[]).size
+    · have ha : DStore.addAt (s.pages.getD k #[]) (s.lineIndex i : Int) 1
+          = some ((s.pages.getD k #[]).setIfInBounds (s.lineIndex i) ((s.pages.getD k #[]).getD (s.lineIndex i) 0 + 1)) := by
+        unfold DStore.addAt; rw [if_pos (by omega)]; simp
+      rw [ha]
+      simp only [Option.map_some, optL_some, toGen_pages, pagesL_setBuf, set_pagesL_nat]
+      by_cases h2 : k < s.pages.size
+      · rw [if_pos h2, if_pos ⟨h2, h1⟩]
+        simp only [optL_some, Option.bind_eq_bind, Option.bind_some]
+        have := ih { s with pages := s.pages.setIfInBounds k ((s.pages.getD k #[]).setIfInBounds (s.lineIndex i) ((s.pages.getD k #[]).getD (s.lineIndex i) 0 + 1)) }
+        simp only [PStore.getD_setIfInBounds, true_and, if_pos h2] at this
+        exact this
+      · rw [if_neg h2, if_neg (fun h => h2 h.1)]
+        rfl
+    · have ha : DStore.addAt (s.pages.getD k #[]) (s.lineIndex i : Int) 1 = none := by
+        unfold DStore.addAt; rw [if_neg (by omega)]
+      rw [ha, if_neg (fun h => h1 h.2)]
+      rfl
+
+theorem idx_append_cons {α : Type} (pre : List α) (x : α) (xs : List α) :
+    GoSem.idx (pre ++ x :: xs) (pre.length : Int) = some x := by
+  unfold GoSem.idx
+  rw [if_neg (by omega)]
+  simp
+
+theorem spanPage_cons_pos (s : PStore) (p x : Int) (xs : List Int) (h : s.pageIndex x = p) :
+    s.spanPage p (x :: xs) = (x :: (s.spanPage p xs).1, (s.spanPage p xs).2) := by
+  rw [PStore.spanPage, if_pos h]
+
+theorem spanPage_cons_neg (s : PStore) (p x : Int) (xs : List Int) (h : ¬ s.pageIndex x = p) :
+    s.spanPage p (x :: xs) = ([], x :: xs) := by
+  rw [PStore.spanPage, if_neg h]
+
+/-- loop3 of `compact`: the end of the group of entries on page `p` -/
+theorem compact_loop3_eq (cap : Int) (s : PStore) (p : Int) : ∀ (l pre : List Int) (fuel : Nat),
+    (s.spanPage p l).1.length + 1 ≤ fuel →
+    BufferedPaginatedStore.compact.loop3 (toGen (setBuf s (pre ++ l)) cap) p fuel (pre.length : Int)
+      = .done ((pre.length : Int) + ((s.spanPage p l).1.length : Int)) := by
+  intro l
+  induction l with
+  | nil =>
+    intro pre fuel hf
+    obtain ⟨f, rfl⟩ : ∃ f, fuel = f + 1 := ⟨fuel - 1, by omega⟩
+    unfold BufferedPaginatedStore.compact.loop3
+    simp [GoSem.len, PStore.spanPage]
+  | cons x xs ih =>
+    intro pre fuel hf
+    obtain ⟨f, rfl⟩ : ∃ f, fuel = f + 1 := ⟨fuel - 1, by omega⟩
+    unfold BufferedPaginatedStore.compact.loop3
+    have hlt : (pre.length : Int) < GoSem.len (pre ++ x :: xs) := by
+      simp [GoSem.len]
+    simp only [toGen_buffer, setBuf_buffer, hlt, decide_true, if_true, idx_append_cons, optL_some,
+      gen_pageIndex, setBuf_pageIndex]
+    by_cases hp : s.pageIndex x = p
+    · rw [spanPage_cons_pos s p x xs hp] at hf ⊢
+      simp only [List.length_cons] at hf
+      have := ih (pre ++ [x]) f (by omega)
+      simp only [List.append_assoc, List.singleton_append, List.length_append, List.length_cons,
+        List.length_nil] at this
+      rw [if_pos (by simpa using hp)]
+      simp only [List.length_cons]
+      rw [show ((pre.length : Int) + 1) = ((pre.length + (0 + 1) : Nat) : Int) by omega, this]
+      congr 1; omega
+    · rw [spanPage_cons_neg s p x xs hp]
+      rw [if_neg (by simpa using hp)]
+      simp
 
 end DDS.GenPag
